@@ -18,15 +18,17 @@ def _build_test_binary(ctx, harness_dirs=None, pkg=None, tags="verif", timeout=1
 CFG = dict(
     imports=["From Verif.C24 Require Import Model Spec."],
     checker="check_case",
-    n=dict(quick=120, thorough=3000),
-    shard=40,
+    n=dict(quick=100, thorough=3000),
+    shard=20,
     driver_args=lambda ctx, n, seed: ["-test.run", "^TestVerifC24$", "-test.count=1", "-verif.n", n, "-verif.seed", seed],
     rule="each case: one real snapcache.Cache (MaxBatchSize 1..100) fed event lists (update lists incl. unchanged values, "
          "blind deletes, nil values with non-delete type, resync 'new' for held keys, TTLs, v3 resources; status changes) "
          "through its real batching/publishing code, and 1-3 real server connections over net.Pipe to the real syncclient "
          "(streamed snapshot or pre-built snappy snapshot of an older crumb, MaxMessageSize 1..100), each reading on a "
          "random schedule (held-back callbacks while more crumbs are published, virtual-time gaps that drive the "
-         "coalescing of crumbs) until drained; non-trivial = >=3 updates, >=3 crumbs and some client joined after the "
+         "coalescing of crumbs) until drained; boundary streams (statuses only, the same value repeated so that nearly every "
+         "update is skipped, update lists of exactly 1x/2x MaxBatchSize and one more, MaxBatchSize/MaxMessageSize 0 = "
+         "default); non-trivial = >=3 updates, >=3 crumbs and some client joined after the "
          "first crumb or received coalesced crumbs; distinct by (MaxBatchSize, pushes, client records)",
     trusted=["Coq 8.16.1 kernel + vm_compute",
              "hand-written model coq/theories/C24/Model.v tied to typha/pkg/{snapcache,syncserver,syncclient,syncproto} by this correspondence run",
